@@ -13,6 +13,8 @@ def run(rep):
     rep.guard(g4, rep, w)
     rep.guard(g5, rep, w)
     rep.guard(g6, rep, w)
+    rep.guard(g7, rep, w)
+    rep.guard(g8, rep, w)
 
 
 def g1(rep, w):
@@ -409,3 +411,74 @@ def g6(rep, w):
     for fld in sorted(set(vals)):
         r.check(('yarel::object::ObjFiber', fld) in writes, 'take_return_data clears ObjFiber.%s' % fld, 'take_return_data hands the parked value out but leaves it in ObjFiber.%s: the fiber '
                 'keeps it (and everything it references) alive until the next return through a try block' % fld, f.loc())
+
+
+def g7(rep, w):
+    """what the collector asks an object it asks through the object's wrapper: every heap object with interior mutability sits in a RefCell, and the
+    collector's trait is implemented for RefCell<T> (and the other containers) by forwarding. A trait method that some object type overrides (how
+    many extra bytes do you own?) and that a forwarding impl leaves at its default is answered with the default for every wrapped object: what was
+    charged at allocation is never credited at sweep, and the heap's books grow for ever."""
+    c = w.yarel
+    r = rep.rule('G7', 'every method of the collector\'s trait that some type overrides is forwarded by the wrapper impls (RefCell<T>, Vec<T>, ...)', floor=1)
+    impls = [im for im in c.impls if (im.get('trait') or '').endswith('memory::GcManaged')]
+    if len(impls) < 20:
+        raise Broken('C16', 'anchor', 'only %d GcManaged impls found' % len(impls))
+    methods = {}
+    for im in impls:
+        for it in im['items']:
+            methods.setdefault(it.rsplit('::', 1)[-1], []).append(c.tstr(im['self']))
+    wrappers = [im for im in impls if c.tstr(im['self']).startswith(('std::cell::RefCell<', 'core::cell::RefCell<'))]
+    if not wrappers:
+        raise Broken('C16', 'anchor', 'GcManaged for RefCell<T> not found')
+    for im in wrappers:
+        have = {it.rsplit('::', 1)[-1] for it in im['items']}
+        missing = sorted(m for m, who in methods.items() if m not in have)
+        r.check(not missing, 'GcManaged for %s forwards every overridden method' % c.tstr(im['self']),
+                'GcManaged for %s leaves %s at the trait default although %s override it: asked through the wrapper, those objects give the default answer (bytes charged when '
+                'they were allocated are never credited when they are swept)' % (c.tstr(im['self']), missing, sorted({t for m in missing for t in methods[m]})[:3]), '')
+
+
+def g8(rep, w):
+    """a finished fiber is garbage unless the program holds it: a fiber points at the fiber that is waiting for it (the caller link, cleared when it
+    yields or finishes) and at nothing else that is a fiber. A second fiber-to-fiber edge (the creator, "for the error report") chains every
+    finished fiber of a relay to its successors: reachable, so never reclaimed."""
+    c = w.yarel
+    r = rep.rule('G8', 'a fiber holds no reference to another fiber besides the caller link that a switch out of it clears', floor=1)
+    adt = c.adts.get('yarel::object::ObjFiber')
+    if adt is None:
+        raise Broken('C16', 'anchor', 'ObjFiber not found')
+    edges = []
+    for fd in adt['variants'][0]['fields']:
+        ts = c.tstr(fd['t'])
+        if 'ObjFiber' in ts and ('Gc<' in ts or 'Root<' in ts):
+            edges.append(fd['n'])
+    import c09
+    cleared = set()
+    uf = w.require_fn('yarel::vm::Vm::unload_fiber', 'C16')
+    org = origins(uf)
+    for bi in uf.normal_blocks():
+        for s_ in uf.blocks[bi]['s']:
+            d = s_.get('d') or {}
+            if d.get('p') and isinstance(d['p'][-1], dict) and d['p'][-1].get('n') in edges:
+                cleared.add(d['p'][-1]['n'])
+    for bi, t in uf.calls():
+        n_ = strip_generics(callee_name(t) or '')
+        if n_.endswith(('Option::take', 'mem::take', 'Option::replace')) and t['args']:
+            cleared |= set(operand_fields(uf, org, t['args'][0])) & set(edges)
+        g = w.fns.get(callee_name(t) or '')
+        if g is not None and g.path.startswith('yarel::object::ObjFiber::'):
+            for b2 in g.blocks:
+                for s2 in b2['s']:
+                    d2 = s2.get('d') or {}
+                    if d2.get('p') and isinstance(d2['p'][-1], dict) and d2['p'][-1].get('n') in edges:
+                        cleared.add(d2['p'][-1]['n'])
+            gorg = origins(g)
+            for _, t2 in g.calls():
+                if strip_generics(callee_name(t2) or '').endswith(('Option::take', 'mem::take')) and t2['args']:
+                    cleared |= set(operand_fields(g, gorg, t2['args'][0])) & set(edges)
+    for e in edges:
+        r.check(e in cleared, 'ObjFiber.%s is cleared when the fiber is switched out of' % e,
+                'ObjFiber.%s is a traced reference from one fiber to another that leaving the fiber does not clear: fibers that hand work on to their successors keep each other alive '
+                'after they have finished' % e, '')
+    if not edges:
+        raise Broken('C16', 'anchor', 'ObjFiber has no fiber-typed field (caller link not found)')
